@@ -94,7 +94,7 @@ TReset ==
 \* The message a logged `hs` event is about.
 \*   ev.t, ev.ms   handshake type and message_seq as received
 \*   ev.oms        message_seq the sender gave it (differs after an adversary's omit)
-\*   ev.fi, ev.nf  fragment index / count (0/1 = unfragmented)
+\*   ev.lo, ev.hi  the piece [lo, hi) of the body it carries, in sixths (0, 6 = the whole message)
 \*   ev.rw         rewrite applied by the proxy ("" = none)
 \*   ev.inj        "" or the kind of record the adversary built itself
 Candidates(e) ==
@@ -102,7 +102,7 @@ Candidates(e) ==
   THEN {[Msg(Ev.t, Ev.ms) EXCEPT !.bad = TRUE]}
   ELSE LET S == {i \in 1..Len(sent[Peer(e)]) : sent[Peer(e)][i].t = Ev.t /\ sent[Peer(e)][i].ms = Ev.oms}
        IN {[(IF Ev.rw # "" THEN Rewrite(Ev.rw, sent[Peer(e)][i]) ELSE sent[Peer(e)][i])
-              EXCEPT !.ms = Ev.ms, !.frag = Ev.fi, !.nfrag = Ev.nf] : i \in S}
+              EXCEPT !.ms = Ev.ms, !.lo = Ev.lo, !.hi = Ev.hi] : i \in S}
 
 THs ==
   /\ Is("hs")
